@@ -309,8 +309,10 @@ class FloatEnumParam(Parameter):
         vdict = self.valuedict
         try:
             idx = min(vdict, key=lambda i: abs(vdict[i] - value))
+            if self.idx_name not in instance.parameters:
+                raise KeyError(self.idx_name)  # during initialisation (value from cfg)
         except Exception:
-            super().__set__(instance, value)  # not a number: handled as for any parameter
+            super().__set__(instance, value)  # handled as for any parameter
             return
         setattr(instance, self.idx_name, idx)
 
